@@ -520,7 +520,7 @@ func rule012(r *core.Run) {
 			case "Size", "ModTime":
 				okS := false
 				for c := range vs.Calls {
-					if strings.HasSuffix(r.P.CalleeName(c), ".Stat") && strings.HasPrefix(r.P.CalleeName(c), "invoke:github.com/spf13/afero.Fs") && c.Common().Args[0] == objPath {
+					if strings.HasSuffix(r.P.CalleeName(c), ".Stat") && strings.HasPrefix(r.P.CalleeName(c), "invoke:github.com/spf13/afero.Fs") && sameValue(r, c.Common().Args[0], objPath, 0) {
 						okS = true
 					}
 				}
